@@ -74,12 +74,14 @@ def work(case):
     ref = RO.RefDecider(cfg)
     out, nontrivial, fail = [], False, None
     stats = [0, 0, 0, 0]
+    kept = []               # every report, with what it said when it was delivered
     for k, op in enumerate(ops):
         o, lists = SD.apply_op(dec, rec, op)
         out += o
         if lists is None:
             break
         comp, halt, upd = lists
+        kept += [(k, r, tuple(PL.enc_ser(r))) for r in comp + halt + upd]
         if comp or halt or upd:
             nontrivial = True
         rep = ref.step(op[1])
@@ -103,6 +105,13 @@ def work(case):
                 fail = dict(signature="semantics-active-set", step=k,
                             what="active runs after event %d differ from the documented semantics" % k,
                             detail=dict(got=act, expected=ref.active()))
+    # a subscriber that keeps its reports reads them after the stream: they still say what they said on delivery
+    for k, r, then in kept:
+        if fail is None and tuple(PL.enc_ser(r)) != then:
+            fail = dict(signature="reported-history-changed-later", step=len(ops) - 1,
+                        what="the report for run %s delivered at event %d reads differently after the stream: it no longer "
+                             "holds the history the run had when it was reported" % (r.run_id, k),
+                        detail=dict(delivered=list(then), now=list(PL.enc_ser(r))))
     return out, nontrivial, fail, stats
 
 
